@@ -437,3 +437,33 @@ def _tilt_meta(ctx) -> None:
                       f"the axis labelled direction {d.value!r} carries the values of {sorted(srcs)}",
                       key_detail=f"dir-{d.value}")
     ctx.require(dirs == {"x", "y"}, f"{e2.qualname}: axes for both directions not found")
+
+
+# ---- added after the seeded change C39-seed2: the fixed (base) tilt is applied on every path
+_inner_run_c39 = run
+
+
+def run(ctx) -> None:  # noqa: F811
+    import ast as _ast
+
+    from ..cfg import CFG as _CFG
+    from ..model import call_name as _cn, norm_text as _nt, walk_no_nested as _walk
+
+    ctx.rule("R-BASETILT-ALWAYS", "FresnelPropagator._calculate_array applies the waves' fixed base tilt on every path to "
+             "a return: the test on waves.base_tilt dominates every return of the function, so a wave that has both a "
+             "scalar tilt component and a tilt axis (mixed per-axis tilt) keeps its scalar component")
+    f = ctx.repo.method("abtem.multislice", "FresnelPropagator", "_calculate_array")
+    cfg = _CFG(f.node)
+    tests = [n for n in cfg.nodes if n.kind == "test" and isinstance(n.ast, _ast.If) and "base_tilt" in _nt(n.ast.test)
+             and any(isinstance(c, _ast.Call) and _cn(c) == "_apply_tilt_to_fresnel_propagator_array"
+                     for s in n.ast.body for c in _ast.walk(s))]
+    ctx.require(len(tests) >= 1, "_calculate_array: base-tilt application not found")
+    rets = [n for n in cfg.nodes if n.kind == "stmt" and isinstance(n.ast, _ast.Return)]
+    ctx.require(len(rets) >= 1, "_calculate_array: no return")
+    for r in rets:
+        ok = any(cfg.dominates(t.idx, r.idx) for t in tests)
+        ctx.check(ok, "R-BASETILT-ALWAYS", f"{f.qualname}:return `{_nt(r.ast)[:30]}`", f.loc(r.ast),
+                  "the base-tilt test dominates this return",
+                  f"`{_nt(r.ast)[:40]}` can be reached without passing the base-tilt test: on that path (tilt axes "
+                  "present) a non-zero scalar base tilt is ignored", key_detail="dominance")
+    _inner_run_c39(ctx)
